@@ -42,7 +42,8 @@ Record world := {
   w_decrypt : string -> string -> option string   (* environment name, ciphertext -> plaintext *)
 }.
 
-Definition eid : Type := (string * list nat)%type.
+Inductive idstep := IKey (k : string) | IIdx (i : nat).
+Definition eid : Type := (string * list idstep)%type.
 
 Inductive ev :=
 | EvLoad (name : string)
@@ -82,13 +83,21 @@ Definition call (W : world) : M bool :=
   fun s => (match w_fault W with Some k => k =? calls s | None => false end,
             {| memo := memo s; imps := imps s; log := log s; nerr := nerr s; calls := calls s + 1; oof := oof s |}).
 
-Definition eid_eqb (a b : eid) : bool :=
-  String.eqb (fst a) (fst b) && (fix go (x y : list nat) : bool :=
-     match x, y with
-     | [], [] => true
-     | i :: x', j :: y' => Nat.eqb i j && go x' y'
-     | _, _ => false
-     end) (snd a) (snd b).
+Definition idstep_eqb (a b : idstep) : bool :=
+  match a, b with
+  | IKey x, IKey y => String.eqb x y
+  | IIdx i, IIdx j => Nat.eqb i j
+  | _, _ => false
+  end.
+
+Fixpoint idpath_eqb (x y : list idstep) : bool :=
+  match x, y with
+  | [], [] => true
+  | i :: x', j :: y' => idstep_eqb i j && idpath_eqb x' y'
+  | _, _ => false
+  end.
+
+Definition eid_eqb (a b : eid) : bool := String.eqb (fst a) (fst b) && idpath_eqb (snd a) (snd b).
 
 Fixpoint memo_get (id : eid) (m : list (eid * option chain)) : option (option chain) :=
   match m with
@@ -391,7 +400,7 @@ with eval_repr (fuel : nat) (E : ectx) (x : expr) (xbase : chain) (id : eid) {st
         (fix go (es : list expr) (i : nat) (acc : list chain) : M chain :=
            match es with
            | [] => let cs := rev acc in ret [LArr false false (ScArray (map top_sch cs) (Some ScNever)) cs]
-           | e :: r => v <- eval_expr f E e false [] (fst id, snd id ++ [i]) ;; go r (S i) (v :: acc)
+           | e :: r => v <- eval_expr f E e false [] (fst id, snd id ++ [IIdx i]) ;; go r (S i) (v :: acc)
            end) elems O []
     | EObj entries =>
         let '(decl, dups) := declared entries O [] in
@@ -402,12 +411,12 @@ with eval_repr (fuel : nat) (E : ectx) (x : expr) (xbase : chain) (id : eid) {st
                    ret [LObj false false (ScObject (map (fun kc => (fst kc, top_sch (snd kc))) props) None) props]
            | (i, k, e) :: r =>
                (* declare: the property's base is the object's base's property *)
-               v <- eval_expr f E e false (property k xbase) (fst id, snd id ++ [i]) ;;
+               v <- eval_expr f E e false (property k xbase) (fst id, snd id ++ [IKey k]) ;;
                go r ((k, v) :: acc)
            end) (sort_entries decl) []
     | EJoin d vs =>
-        dr <- eval_typed f E d AccString (fst id, snd id ++ [0%nat]) ;;
-        vr <- eval_typed f E vs AccArrString (fst id, snd id ++ [1%nat]) ;;
+        dr <- eval_typed f E d AccString (fst id, snd id ++ [IIdx 0]) ;;
+        vr <- eval_typed f E vs AccArrString (fst id, snd id ++ [IIdx 1]) ;;
         let '(dv, dok) := dr in let '(vv, vok) := vr in
         if negb dok || negb vok then ret [unknown_layer false (ScType "string")]
         else
@@ -422,7 +431,7 @@ with eval_repr (fuel : nat) (E : ectx) (x : expr) (xbase : chain) (id : eid) {st
             let dl := match dv with LScalar _ _ _ (SStr s) :: _ => s | _ => "" end in
             ret [str_layer sec false (sjoin dl strs)]
     | EFromB64 e =>
-        r <- eval_typed f E e AccString (fst id, snd id ++ [0%nat]) ;;
+        r <- eval_typed f E e AccString (fst id, snd id ++ [IIdx 0]) ;;
         let '(v, ok) := r in
         if negb ok then ret [unknown_layer false (ScType "string")]
         else
@@ -437,7 +446,7 @@ with eval_repr (fuel : nat) (E : ectx) (x : expr) (xbase : chain) (id : eid) {st
                | _ => ret [LScalar sec true (ScType "string") SNull]
                end
     | EToB64 e =>
-        r <- eval_typed f E e AccString (fst id, snd id ++ [0%nat]) ;;
+        r <- eval_typed f E e AccString (fst id, snd id ++ [IIdx 0]) ;;
         let '(v, ok) := r in
         if negb ok then ret [unknown_layer false (ScType "string")]
         else
@@ -448,7 +457,7 @@ with eval_repr (fuel : nat) (E : ectx) (x : expr) (xbase : chain) (id : eid) {st
                | _ => ret [LScalar sec true (ScType "string") SNull]
                end
     | EFromJSON e =>
-        r <- eval_typed f E e AccString (fst id, snd id ++ [0%nat]) ;;
+        r <- eval_typed f E e AccString (fst id, snd id ++ [IIdx 0]) ;;
         let '(v, ok) := r in
         if negb ok then ret [unknown_layer false ScAlways]
         else
@@ -464,7 +473,7 @@ with eval_repr (fuel : nat) (E : ectx) (x : expr) (xbase : chain) (id : eid) {st
                | _ => ret [LScalar sec true ScAlways SNull]
                end
     | EToJSON e =>
-        v <- eval_expr f E e false [] (fst id, snd id ++ [0%nat]) ;;
+        v <- eval_expr f E e false [] (fst id, snd id ++ [IIdx 0]) ;;
         let unk := contains_unknowns v in let sec := contains_secrets v in
         if unk then ret [LScalar sec true (ScType "string") SNull]
         else match export big_fuel v with
@@ -475,11 +484,11 @@ with eval_repr (fuel : nat) (E : ectx) (x : expr) (xbase : chain) (id : eid) {st
              | None => out_of_fuel ;;; ret invalid_access
              end
     | EToString e =>
-        v <- eval_expr f E e false [] (fst id, snd id ++ [0%nat]) ;;
+        v <- eval_expr f E e false [] (fst id, snd id ++ [IIdx 0]) ;;
         let '(s, unk, sec) := to_string big_fuel v in
         if unk then ret [LScalar sec true (ScType "string") SNull] else ret [str_layer sec false s]
     | ESecretPlain s =>
-        eval_expr f E (EStr s) true [] (fst id, snd id ++ [0%nat])
+        eval_expr f E (EStr s) true [] (fst id, snd id ++ [IIdx 0])
     | ESecretCipher repr =>
         match decode_ct {| ep_magic := "escx"; ep_version := 1; ep_min_len := 12 |} repr with
         | DOk ct =>
@@ -500,7 +509,7 @@ with eval_repr (fuel : nat) (E : ectx) (x : expr) (xbase : chain) (id : eid) {st
         (match prov with None => err | Some _ => ret tt end) ;;;
         let in_s := match prov with Some p => pv_in p | None => InAlways end in
         let out_s := match prov with Some p => pv_out p | None => ScAlways end in
-        r <- eval_typed f E inputs (AccIn in_s) (fst id, snd id ++ [0%nat]) ;;
+        r <- eval_typed f E inputs (AccIn in_s) (fst id, snd id ++ [IIdx 0]) ;;
         let '(iv, ok) := r in
         match prov with
         | None => ret [unknown_layer false out_s]
@@ -559,7 +568,7 @@ with walk (fuel : nat) (E : ectx) (rx : expr) (rsec : bool) (rbase : chain) (rid
         match rx with
         | EArr elems =>
             match array_index a (Z.of_nat (length elems)) with
-            | Some i => walk f E (nth i elems EMissing) false [] (fst rid, snd rid ++ [i]) rest
+            | Some i => walk f E (nth i elems EMissing) false [] (fst rid, snd rid ++ [IIdx i]) rest
             | None => err ;;; ret invalid_access
             end
         | EObj entries =>
@@ -567,13 +576,13 @@ with walk (fuel : nat) (E : ectx) (rx : expr) (rsec : bool) (rbase : chain) (rid
             | None => err ;;; ret invalid_access
             | Some k =>
                 match find_entry k entries O with
-                | Some (i, px) => walk f E px false (property k rbase) (fst rid, snd rid ++ [i]) rest
+                | Some (_, px) => walk f E px false (property k rbase) (fst rid, snd rid ++ [IKey k]) rest
                 | None =>
                     if is_object rbase then let '(c, n) := value_access big_fuel rbase accs in add_err n ;;; ret c
                     else err ;;; ret invalid_access
                 end
             end
-        | ESecretPlain s => walk f E (EStr s) true [] (fst rid, snd rid ++ [0%nat]) accs
+        | ESecretPlain s => walk f E (EStr s) true [] (fst rid, snd rid ++ [IIdx 0]) accs
         | ESecretCipher _ => err ;;; ret invalid_access
         | _ =>
             v <- eval_expr f E rx rsec rbase rid ;;
